@@ -295,8 +295,10 @@ def naming_makers(tier, seed, scope='full', max_secs=None, per_shape=1):
     out = []
     modes = [m for m in NAME_MODES if m != 'plain'] if scope == 'full' else list(REDUCED_MODES)
     shapes = PLACEMENT_SHAPES_THOROUGH if (tier != 'quick' and scope == 'full') else PLACEMENT_SHAPES_QUICK
+    uniform_shapes = shapes
     if scope != 'full':
-        shapes = [(((),),), ((), ())] if tier == 'quick' else PLACEMENT_SHAPES_QUICK
+        shapes = [(((),),)] if tier == 'quick' else PLACEMENT_SHAPES_QUICK
+        uniform_shapes = [(((),),), ((), ())] if tier == 'quick' else PLACEMENT_SHAPES_QUICK
     if max_secs is None:
         max_secs = 3 if tier == 'quick' else 4
     specs = []
@@ -305,7 +307,7 @@ def naming_makers(tier, seed, scope='full', max_secs=None, per_shape=1):
         for pos in range(n):
             for mode in modes:
                 specs.append((shape, 'one:%s@%d' % (mode, pos), (1,)))
-    for shape in shapes:
+    for shape in uniform_shapes:
         for mode in modes:
             specs.append((shape, 'all:%s' % mode, (1, 2)))
     for shape in h.tree_shapes(max_secs):
@@ -367,10 +369,10 @@ def doc_makers(tier, seed, max_secs=None, per_shape=None, naming='full'):
     for shape in h.tree_shapes(min(max_secs, 4)):
         if len(shape) < 2:
             continue
-        for naming in ('plain', 'all:unnamed'):
-            fill = 'c11-link-%s-%r-%s' % (seed, shape, naming)
+        for lnaming in ('plain', 'all:unnamed'):
+            fill = 'c11-link-%s-%r-%s' % (seed, shape, lnaming)
 
-            def make(shape=shape, fill=fill, naming=naming):
+            def make(shape=shape, fill=fill, naming=lnaming):
                 if naming == 'plain':
                     doc = h.build_doc(shape, random.Random(fill), names=['a', 'ab', 'b', 'c', 'd', 'e'])
                 else:
@@ -378,7 +380,7 @@ def doc_makers(tier, seed, max_secs=None, per_shape=None, naming='full'):
                 first, last = doc._sections[0], doc._sections[-1]
                 kind, _ = h.call(setattr, first, 'link', '/' + last._name)
                 return doc if kind == 'ret' else h.build_doc(shape, random.Random(fill))
-            out.append(({'shape': repr(shape), 'fill': fill, 'linked': True, 'naming': naming, 'loaded': None}, make))
+            out.append(({'shape': repr(shape), 'fill': fill, 'linked': True, 'naming': lnaming, 'loaded': None}, make))
     if naming:
         out += naming_makers(tier, seed, scope=naming)
     return out
@@ -555,7 +557,7 @@ def lookup_problems(orig, copy, classes, names=None):
                 kind, pubname = h.call(getattr, found, 'name')
                 if kind == 'exc' or pubname != nm:
                     out.append((cls, 'object found under %r reports name %r' % (nm, pubname)))
-                d = h.diff(h.snap(child, ids=False, parent=False), h.snap(found, ids=False, parent=False))
+                d = h.diff(h.freeze(own_attributes(child)), h.freeze(own_attributes(found)))
                 if d:
                     out.append((cls, 'object found under %r differs from the original object of that name: %s' % (nm, d)))
                 kind, isin = h.call(lambda: nm in lst)
@@ -1031,6 +1033,27 @@ def op_rename(rnd, root):
     return 'rename-%s' % kind_of(x)
 
 
+def op_rename_default(rnd, root):
+    """Take the name away: the object is then named after its id."""
+    cands = _secs(root) + _props(root)
+    if not cands:
+        return None
+    x = rnd.choice(cands)
+    h.call(setattr, x, 'name', rnd.choice([None, '']))
+    return 'rename-to-default-%s' % kind_of(x)
+
+
+def op_rename_to_id(rnd, root):
+    """Name an object after the id of another object of the same tree / after its own id in another spelling."""
+    cands = _secs(root) + _props(root)
+    if not cands:
+        return None
+    x = rnd.choice(cands)
+    other = rnd.choice(_holders(root) + _props(root))
+    h.call(setattr, x, 'name', rnd.choice([other._id, x._id.upper(), x._id]))
+    return 'rename-to-id-%s' % kind_of(x)
+
+
 def op_new_id(rnd, root):
     cands = _holders(root) + _props(root)
     x = rnd.choice(cands)
@@ -1191,7 +1214,7 @@ def op_clean(rnd, root):
 
 OPS = [op_values_set, op_value_append, op_value_extend, op_value_setitem, op_value_remove, op_value_insert,
        op_value_inner_edit, op_returned_list_edit, op_dtype, op_prop_attr, op_sec_attr, op_doc_attr, op_rename,
-       op_new_id, op_remove_child, op_add_section, op_add_property, op_move, op_move_property, op_reorder, op_sort,
+       op_rename_default, op_rename_to_id, op_new_id, op_remove_child, op_add_section, op_add_property, op_move, op_move_property, op_reorder, op_sort,
        op_replace_child, op_cardinality, op_merge, op_clean]
 
 
@@ -1246,12 +1269,13 @@ def run_independence(tier, seed):
     name = 'C11.independence'
     col = Col(name, rule='(way the copy was obtained: clone x flags | export_leaf | list returned by values | list '
                          'passed as values (setter, constructor)) x node x direction (edit copy / edit original) x '
-                         'random edit sequence drawn from 25 operations (value edits, attribute edits, renames, new ids, '
+                         'random edit sequence drawn from 27 operations (value edits, attribute edits, renames incl. taking the name away and naming after an id, new ids, '
                          'add/remove/move/reorder/replace children, cardinalities, merge, clean), checked after every '
-                         'edit; distinct = (way, node kind, direction, has nested values)', exhaustive=False)
+                         'edit; documents as in C11.clone with a reduced naming dimension; distinct = (way, node kind, direction, has nested values, name/id relation of the node, loaded)', exhaustive=False)
     rnd = random.Random('c11-ind-%s' % seed)
     seq_len = 8 if tier == 'quick' else 14
-    makers = doc_makers(tier, seed, max_secs=4 if tier == 'quick' else 5, per_shape=2 if tier == 'quick' else 3)
+    makers = doc_makers(tier, seed, max_secs=4 if tier == 'quick' else 5, per_shape=2 if tier == 'quick' else 3,
+                         naming='reduced')
 
     # ---- tree copies: clone and export_leaf
     for wit, make in makers:
@@ -1276,7 +1300,8 @@ def run_independence(tier, seed):
                     if kind == 'exc':
                         continue        # reported by run_clone / run_export_leaf
                     nested = any(isinstance(v, list) for p in _props(node) for v in p._values)
-                    col.case(cls_key=(way, children, keep_id, k, direction, nested, wit['linked']),
+                    col.case(cls_key=(way, children, keep_id, k, direction, nested, wit['linked'],
+                                      name_classes(doc).get(id(node), 'n/a'), bool(wit['loaded'])),
                              sample='%s %s %s %s' % (wit['shape'], node_path(node), way, direction))
                     if direction == 'edit-copy':
                         target, observed = copy, (lambda doc=doc: h.snap(doc))
@@ -1341,6 +1366,7 @@ def run_independence(tier, seed):
                                   'feature': '%s after %s' % ('nested-value' if nested else 'flat-value', edit_class(labels[-1]))},
                              witness={'dtype': dtype, 'values': repr(vals), 'way': way, 'edits': labels},
                              detail='the %s changed: %s' % (changed, d))
+    cleanup_work()
     return col.result()
 
 
